@@ -3,6 +3,7 @@ import ObiVerif.Lemmas.Pcr
 import ObiVerif.Lemmas.PcrCircular
 import ObiVerif.Lemmas.PcrFrag
 import ObiVerif.Lemmas.PcrGrammar
+import ObiVerif.Lemmas.PcrMore
 /-!
 # C11 — in-silico PCR returns exactly the amplicons the primers define, on either strand (property theorems)
 
@@ -794,19 +795,321 @@ example :
     (pcrL exPrimers ⟨0, 1, false, -1, false⟩ (seg exTpl3 0 20)).map (fun x => (shiftAmp 0 x).idFrom) = [5, 15] ∧
     (pcrL exPrimers ⟨0, 1, false, -1, false⟩ (seg exTpl3 6 30)).map (fun x => (shiftAmp 6 x).idFrom) = [15, 25] := by decide
 
+/-! ## third pass: annotations, short circles, pairing rule, the command line end to end
+
+### the reported match strings and error counts are those of the two sites — of the primer they are attributed to
+
+In both orientation blocks `forward_match` / `forward_error` speak of the FORWARD primer and `reverse_match` / `reverse_error`
+of the REVERSE primer (in the reverse block the direct site is the reverse primer's and the complemented site the forward
+primer's): each string, read alone, is a site of its primer in primer orientation with exactly the reported number of
+mismatches. -/
+
+/-- **`pcr_match_strings`** (linear template over the IUPAC symbols): for every reported record, `forward_match` matches the
+forward primer with exactly `forward_error` mismatches and `reverse_match` the reverse primer with exactly `reverse_error`
+mismatches — in either direction. -/
+theorem pcr_match_strings (P : Primers) (hP : PrimersOk P) (hM : PrimersMirror P) (o : Opts) (hc : o.circular = false)
+    (seq : Bytes) (hs : ∀ b ∈ seq, b ∈ iupac) (l : List Amplicon) (h : pcr P o seq = .ok l) (x : Amplicon) (hx : x ∈ l) :
+    ∃ kf kr : Nat, x.ferr = kf ∧ x.rerr = kr ∧ MatchAt P.forward (enc x.fmatch) 0 kf ∧ MatchAt P.reverse (enc x.rmatch) 0 kr := by
+  rcases pcr_sound P hP o hc seq l h x hx with ⟨i, ki, j, kj, a, b, h1, h2, _, _, rfl⟩ | ⟨i, ki, j, kj, a, b, h1, h2, _, _, rfl⟩
+  · refine ⟨ki, kj, by simp [mkAmp], by simp [mkAmp], ?_, ?_⟩
+    · simpa [mkAmp] using site_of_seg P.forward seq i ki h1
+    · simpa [mkAmp] using site_of_rc_seg P.reverse P.crev hM.rev seq hs j kj h2
+  · refine ⟨kj, ki, by simp [mkAmp], by simp [mkAmp], ?_, ?_⟩
+    · simpa [mkAmp] using site_of_rc_seg P.forward P.cfwd hM.fwd seq hs j kj h2
+    · simpa [mkAmp] using site_of_seg P.reverse seq i ki h1
+
+/-- … on a circular template (any length; `PrimersFit` as in `pcr_sound_circular`) -/
+theorem pcr_match_strings_circular (P : Primers) (hP : PrimersOk P) (hM : PrimersMirror P) (o : Opts) (hc : o.circular = true)
+    (seq : Bytes) (hs : ∀ b ∈ seq, b ∈ iupac) (hL : PrimersFit P seq.length) (l : List Amplicon) (h : pcr P o seq = .ok l)
+    (x : Amplicon) (hx : x ∈ l) :
+    ∃ kf kr : Nat, x.ferr = kf ∧ x.rerr = kr ∧ MatchAt P.forward (enc x.fmatch) 0 kf ∧ MatchAt P.reverse (enc x.rmatch) 0 kr := by
+  rcases pcr_sound_circular P hP o hc seq hL l h x hx with ⟨i, ki, j, kj, h1, h2, _, _, rfl⟩ | ⟨i, ki, j, kj, h1, h2, _, _, rfl⟩
+  · refine ⟨ki, kj, by simp [mkAmpC], by simp [mkAmpC], ?_, ?_⟩
+    · simpa [mkAmpC] using site_of_cseg P.forward seq i ki h1
+    · simpa [mkAmpC] using site_of_rc_cseg P.reverse P.crev hM.rev seq hs j kj h2
+  · refine ⟨kj, ki, by simp [mkAmpC], by simp [mkAmpC], ?_, ?_⟩
+    · simpa [mkAmpC] using site_of_rc_cseg P.forward P.cfwd hM.fwd seq hs j kj h2
+    · simpa [mkAmpC] using site_of_cseg P.reverse seq i ki h1
+
+/-- **the annotation map of a reported amplicon** (`annotate`, `Model/PcrAnnot.lean`; compared with the real map on every
+case): `forward_primer` / `reverse_primer` are the primer strings as given, `forward_match`, `forward_error`, `reverse_match`,
+`reverse_error`, `direction` the fields of the record — whatever the template carried under these seven names — and every
+other annotation of the template is inherited unchanged (nothing else is added). -/
+theorem amplicon_annotations (fwd rev : Bytes) (tpl : Annot) (x : Amplicon) :
+    ((annotate fwd rev tpl x).get (.pcr .forwardPrimer) = some (.str fwd) ∧
+     (annotate fwd rev tpl x).get (.pcr .reversePrimer) = some (.str rev) ∧
+     (annotate fwd rev tpl x).get (.pcr .forwardMatch) = some (.str x.fmatch) ∧
+     (annotate fwd rev tpl x).get (.pcr .forwardError) = some (.int x.ferr) ∧
+     (annotate fwd rev tpl x).get (.pcr .reverseMatch) = some (.str x.rmatch) ∧
+     (annotate fwd rev tpl x).get (.pcr .reverseError) = some (.int x.rerr) ∧
+     (annotate fwd rev tpl x).get (.pcr .direction) = some (.str (dirBytes x.isForward))) ∧
+    ∀ n, (annotate fwd rev tpl x).get (.other n) = tpl.get (.other n) :=
+  ⟨annotate_get_pcr fwd rev tpl x, annotate_get_other fwd rev tpl x⟩
+
+/-- the annotations of a flipped record: those of the record with the other direction -/
+theorem annotate_flipAmp (fwd rev : Bytes) (tpl : Annot) (L : Nat) (x : Amplicon) :
+    annotate fwd rev tpl (flipAmp L x) = annotate fwd rev tpl { x with isForward := !x.isForward } := rfl
+
+theorem annotate_flipC (fwd rev : Bytes) (tpl : Annot) (L : Nat) (x : Amplicon) :
+    annotate fwd rev tpl (flipC L x) = annotate fwd rev tpl { x with isForward := !x.isForward } := rfl
+
+/-- **strand symmetry, annotations included** (linear): the multiset of (nucleotides, annotation map) reported for the
+reverse-complemented template — carrying the same annotations — is the one reported for the template with `direction`
+flipped: same `forward_primer`, `reverse_primer`, match strings, error counts, inherited annotations. -/
+theorem pcr_strand_symmetry_annot (P : Primers) (hP : PrimersOk P) (hM : PrimersMirror P) (o : Opts) (hc : o.circular = false)
+    (seq : Bytes) (hs : ∀ b ∈ seq, b ∈ iupac) (fwd rev : Bytes) (tpl : Annot) (l l' : List Amplicon)
+    (h : pcr P o seq = .ok l) (h' : pcr P o (SeqOps.rc seq) = .ok l') :
+    (l'.map fun a => (a.seq, annotate fwd rev tpl a)).Perm
+      (l.map fun a => (a.seq, annotate fwd rev tpl { a with isForward := !a.isForward })) := by
+  have := (pcr_strand_symmetry P hP hM o hc seq hs l l' h h').map fun a => (a.seq, annotate fwd rev tpl a)
+  rw [List.map_map] at this
+  exact this
+
+/-- … on a circular template -/
+theorem pcr_strand_symmetry_circular_annot (P : Primers) (hP : PrimersOk P) (hM : PrimersMirror P) (o : Opts)
+    (hc : o.circular = true) (seq : Bytes) (hs : ∀ b ∈ seq, b ∈ iupac) (hL : PrimersFit P seq.length)
+    (fwd rev : Bytes) (tpl : Annot) (l l' : List Amplicon)
+    (h : pcr P o seq = .ok l) (h' : pcr P o (SeqOps.rc seq) = .ok l') :
+    (l'.map fun a => (a.seq, annotate fwd rev tpl a)).Perm
+      (l.map fun a => (a.seq, annotate fwd rev tpl { a with isForward := !a.isForward })) := by
+  have := (pcr_strand_symmetry_circular P hP hM o hc seq hs hL l l' h h').map fun a => (a.seq, annotate fwd rev tpl a)
+  rw [List.map_map] at this
+  exact this
+
+/-- non-vacuity / test (evaluation of the model): the record of `tacgttccaa` and the one of its reverse complement
+`ttggaacgta` carry the same `forward_match` (`acg`, a site of ACG) and `reverse_match` (`gga`, a site of GGA) -/
+example : (match pcr exPrimers ⟨0, 0, false, -1, false⟩ [116, 97, 99, 103, 116, 116, 99, 99, 97, 97],
+                 pcr exPrimers ⟨0, 0, false, -1, false⟩ [116, 116, 103, 103, 97, 97, 99, 103, 116, 97] with
+    | .ok [x], .ok [y] =>
+      decide (x.fmatch = [97, 99, 103] ∧ x.rmatch = [103, 103, 97] ∧ y.fmatch = [97, 99, 103] ∧ y.rmatch = [103, 103, 97] ∧
+        x.isForward = true ∧ y.isForward = false)
+    | _, _ => false) = true ∧
+    MatchAt exPrimers.forward (enc [97, 99, 103]) 0 0 ∧ MatchAt exPrimers.reverse (enc [103, 103, 97]) 0 0 :=
+  ⟨by decide, ⟨by decide, by decide, by decide⟩, ⟨by decide, by decide, by decide⟩⟩
+
+/-! ### circular templates shorter than a primer
+
+Since fix c69892e the C encoder copies `min(len, 64)` symbols behind a circular sequence (what `seqData` does): the model is
+tied to the code for every length.  A primer longer than the circle can be "found" by the matcher (the buffer holds the
+circle twice) but never yields an amplicon; so every circular theorem extends to all lengths. -/
+
+/-- **a primer longer than the circular template: no amplicon** (`cfwd` / `crev` have the lengths of the primers: true of
+every compiled pair, `Mirror.patlen`) -/
+theorem pcr_circular_unfit (P : Primers) (hP : PrimersOk P) (hlen : P.cfwd.patlen = P.forward.patlen ∧ P.crev.patlen = P.reverse.patlen)
+    (o : Opts) (hc : o.circular = true) (seq : Bytes)
+    (hu : seq.length < P.forward.patlen ∨ seq.length < P.reverse.patlen) : pcr P o seq = .ok [] := by
+  have b1 : block true P.forward P.crev P.forward.patlen P.reverse.patlen o seq = [] :=
+    block_unfit true _ _ hP.forward hP.crev _ o hc seq (by rcases hu with hu | hu <;> omega)
+  have b2 : block false P.reverse P.cfwd P.reverse.patlen P.reverse.patlen o seq = [] :=
+    block_unfit false _ _ hP.reverse hP.cfwd _ o hc seq (by rcases hu with hu | hu <;> omega)
+  unfold pcr pcrRaw
+  rw [b1, b2]
+  rfl
+
+/-- primers that are not longer than the template fit -/
+theorem primersFit_of_not_unfit (P : Primers) (hlen : P.cfwd.patlen = P.forward.patlen ∧ P.crev.patlen = P.reverse.patlen)
+    (L : Nat) (h : ¬ (L < P.forward.patlen ∨ L < P.reverse.patlen)) : PrimersFit P L :=
+  ⟨by omega, by omega, by omega, by omega⟩
+
+/-- **no `log.Fatalf`, no panic on a circular template of any length** -/
+theorem pcr_total_circular_all (P : Primers) (hP : PrimersOk P) (hlen : P.cfwd.patlen = P.forward.patlen ∧ P.crev.patlen = P.reverse.patlen)
+    (o : Opts) (hc : o.circular = true) (seq : Bytes) : ∃ l, pcr P o seq = .ok l := by
+  by_cases hu : seq.length < P.forward.patlen ∨ seq.length < P.reverse.patlen
+  · exact ⟨[], pcr_circular_unfit P hP hlen o hc seq hu⟩
+  · exact pcr_total_circular P hP o hc seq (primersFit_of_not_unfit P hlen _ hu)
+
+/-- **rotation invariance for circular templates of any length** (also shorter than 64 symbols, also shorter than a primer) -/
+theorem pcr_rotation_all (P : Primers) (hP : PrimersOk P) (hlen : P.cfwd.patlen = P.forward.patlen ∧ P.crev.patlen = P.reverse.patlen)
+    (o : Opts) (hc : o.circular = true) (seq : Bytes) (r : Nat) (l l' : List Amplicon)
+    (h : pcr P o seq = .ok l) (h' : pcr P o (rotl seq r) = .ok l') :
+    ∀ t, t ∈ l'.map obs ↔ t ∈ l.map obs := by
+  by_cases hu : seq.length < P.forward.patlen ∨ seq.length < P.reverse.patlen
+  · have e1 := pcr_circular_unfit P hP hlen o hc seq hu
+    have e2 := pcr_circular_unfit P hP hlen o hc (rotl seq r) (by rw [rotl_length]; exact hu)
+    rw [e1] at h; rw [e2] at h'
+    cases h; cases h'
+    intro t; rfl
+  · exact pcr_rotation P hP o hc seq (primersFit_of_not_unfit P hlen _ hu) r l l' h h'
+
+/-- **strand symmetry for circular templates of any length** -/
+theorem pcr_strand_symmetry_circular_all (P : Primers) (hP : PrimersOk P) (hM : PrimersMirror P) (o : Opts)
+    (hc : o.circular = true) (seq : Bytes) (hs : ∀ b ∈ seq, b ∈ iupac) (l l' : List Amplicon)
+    (h : pcr P o seq = .ok l) (h' : pcr P o (SeqOps.rc seq) = .ok l') :
+    (l'.map obs).Perm (l.map fun a => (!a.isForward, a.seq, a.fmatch, a.ferr, a.rmatch, a.rerr)) := by
+  have hlen : P.cfwd.patlen = P.forward.patlen ∧ P.crev.patlen = P.reverse.patlen := ⟨hM.fwd.patlen, hM.rev.patlen⟩
+  by_cases hu : seq.length < P.forward.patlen ∨ seq.length < P.reverse.patlen
+  · have e1 := pcr_circular_unfit P hP hlen o hc seq hu
+    have e2 := pcr_circular_unfit P hP hlen o hc (SeqOps.rc seq) (by rw [Pcr.rc_length]; exact hu)
+    rw [e1] at h; rw [e2] at h'
+    cases h; cases h'
+    exact List.Perm.refl _
+  · exact pcr_strand_symmetry_circular_obs P hP hM o hc seq hs (primersFit_of_not_unfit P hlen _ hu) l l' h h'
+
+/-- non-vacuity / test: on the circle `acgt` the matcher reports a site of the 7-position pattern ACGTACG (the buffer is
+`acgtacgt`), and the PCR with that forward primer reports nothing -/
+example : (findAllIndex ⟨[65, 67, 71, 84, 65, 67, 71], [1, 4, 64, 524288, 1, 4, 64], 0, false⟩ [97, 99, 103, 116] true 0 (-1)
+      = [(0, 7, 0)]) ∧ (4 : Nat) < 7 := by decide
+
+/-! ### the pairing rule: every admissible pair, not the nearest one
+
+`_Pcr` runs two nested loops over ALL hits of the direct primer and ALL hits of the complemented primer: two forward sites
+before one reverse site give two (nested) amplicons, one forward site before two reverse sites give two amplicons, unless
+the length bounds exclude one of them.  This is the reading of the property text ("conversely every such pair of matches
+yields an amplicon"); `pcr_complete` + `pcr_nodup` say it in general, the next theorem for the nested case. -/
+
+/-- **two forward sites before one reverse site: both pairs are reported, as two distinct records** (forward orientation;
+the reverse orientation is symmetric through `pcr_complete_reverse`) -/
+theorem pcr_all_pairs (P : Primers) (hP : PrimersOk P) (o : Opts) (hc : o.circular = false) (seq : Bytes)
+    (l : List Amplicon) (h : pcr P o seq = .ok l) (i1 k1 i2 k2 j kj a1 b1 a2 b2 : Nat) (hne : i1 ≠ i2)
+    (h1 : MatchAt P.forward (enc seq) i1 k1) (h2 : MatchAt P.forward (enc seq) i2 k2) (hj : MatchAt P.crev (enc seq) j kj)
+    (hl1 : lengthOk o ((j : Int) - ((i1 : Int) + P.forward.patlen)) = true)
+    (hl2 : lengthOk o ((j : Int) - ((i2 : Int) + P.forward.patlen)) = true)
+    (hb1 : linBounds o seq.length i1 P.forward.patlen j P.crev.patlen = some (a1, b1))
+    (hb2 : linBounds o seq.length i2 P.forward.patlen j P.crev.patlen = some (a2, b2)) :
+    mkAmp true seq i1 k1 j kj P.forward.patlen P.crev.patlen a1 b1 ∈ l ∧
+    mkAmp true seq i2 k2 j kj P.forward.patlen P.crev.patlen a2 b2 ∈ l ∧
+    mkAmp true seq i1 k1 j kj P.forward.patlen P.crev.patlen a1 b1 ≠ mkAmp true seq i2 k2 j kj P.forward.patlen P.crev.patlen a2 b2 := by
+  refine ⟨pcr_complete_forward P hP o hc seq l h i1 k1 j kj a1 b1 h1 hj hl1 hb1,
+    pcr_complete_forward P hP o hc seq l h i2 k2 j kj a2 b2 h2 hj hl2 hb2, ?_⟩
+  intro e
+  have := congrArg (fun x => x.hitD.1) e
+  simp only [mkAmp, if_true] at this
+  omega
+
+/-- the template of the next example: `tt acgta ccc acgta ccccc gatcc aa` — two sites of ACGTA before one site of GATCC -/
+def exNested : Bytes := [116, 116, 97, 99, 103, 116, 97, 99, 99, 99, 97, 99, 103, 116, 97, 99, 99, 99, 99, 99, 103, 97, 116, 99, 99, 97, 97]
+
+/-- the primers ACGTA / GGATC as compiled -/
+def exPrimers5 : Primers :=
+  ⟨⟨[65, 67, 71, 84, 65], [1, 4, 64, 524288, 1], 0, false⟩, ⟨[84, 65, 67, 71, 84], [524288, 1, 4, 64, 524288], 0, false⟩,
+   ⟨[71, 71, 65, 84, 67], [64, 64, 1, 524288, 4], 0, false⟩, ⟨[71, 65, 84, 67, 67], [64, 1, 524288, 4, 4], 0, false⟩⟩
+
+/-- test (evaluation of the model; the same lines are in the corpus of the harness): without bound both pairs are reported —
+the nested amplicons of 13 and 5 symbols, outer first; with `max length = 5` only the inner one; with `min length = 6` only the
+outer one -/
+example :
+    (match mkPrimers [65, 67, 71, 84, 65] [71, 71, 65, 84, 67] 0 0 with
+     | some P => decide (P.forward = exPrimers5.forward ∧ P.cfwd = exPrimers5.cfwd ∧ P.reverse = exPrimers5.reverse ∧ P.crev = exPrimers5.crev)
+     | none => false) = true ∧
+    (pcrL exPrimers5 ⟨0, 0, false, -1, false⟩ exNested).map (fun x => (x.idFrom, x.idTo)) = [(8, 20), (16, 20)] ∧
+    (pcrL exPrimers5 ⟨0, 5, false, -1, false⟩ exNested).map (fun x => (x.idFrom, x.idTo)) = [(16, 20)] ∧
+    (pcrL exPrimers5 ⟨6, 0, false, -1, false⟩ exNested).map (fun x => (x.idFrom, x.idTo)) = [(8, 20)] := by decide
+
+/-! ### a fragment end that clips a flank: exactly when (finding `C11-frag-clipped-flank`) -/
+
+/-- **`pcr_piece_clipped`, exact form**: with `--delta` and without `--only-complete-flanking`, a record `y` of the piece
+`[a, b)` comes from a pair of sites for which the template reports a record `x`; `y` IS `x` (coordinates shifted) **iff** the
+left flank fits in the piece or the piece starts the template, AND the right flank fits in the piece or the piece ends the
+template.  Otherwise `y` is spurious: a copy of `x` with a truncated flank (`pcr_piece_clipped`: window contained, same
+sites, match strings and error counts) — and `x` itself is reported for another piece (`pcr_fragmented_complete`). -/
+theorem pcr_piece_clipped_exact (P : Primers) (hP : PrimersOk P) (o : Opts) (hc : o.circular = false)
+    (hx : o.hasExtension = true) (hf : o.fullExtension = false) (seq : Bytes) (a b : Nat) (hab : a ≤ b) (hb : b ≤ seq.length)
+    (y : Amplicon) (hy : y ∈ pcrL P o (seg seq a b)) :
+    ∃ x ∈ pcrL P o seq, x.hitD = shiftHit a y.hitD ∧ x.hitC = shiftHit a y.hitC ∧
+      (x = shiftAmp a y ↔
+        ((o.extension ≤ y.hitD.1 ∨ a = 0) ∧ (y.hitC.2.1 + o.extension + a ≤ b ∨ b = seq.length))) := by
+  simp only [mem_pcrL_iff P hP o hc] at hy ⊢
+  rcases hy with hy | hy
+  · obtain ⟨x, h1, h2⟩ := block_of_piece_clipped_exact true _ _ hP.forward hP.crev _ _ (Int.natCast_nonneg _) o hc hx hf seq a b hab hb y hy
+    exact ⟨x, Or.inl h1, h2⟩
+  · obtain ⟨x, h1, h2⟩ := block_of_piece_clipped_exact false _ _ hP.reverse hP.cfwd _ _ (Int.natCast_nonneg _) o hc hx hf seq a b hab hb y hy
+    exact ⟨x, Or.inr h1, h2⟩
+
+/-! ### `obipcr`, end to end (every combination of `-l`, `-L`, `--delta`, `--only-complete-flanking`, `--circular`, `--fragmented`) -/
+
+/-- **`obipcr` on a linear template, not fragmented — for every value of `-l mn`, `-L mx`, `--delta`,
+`--only-complete-flanking`**: the reported records are exactly those of the pairs (site of one primer, site of the complement
+of the other one downstream) with `g ≥ 1` symbols between the sites, `g ≥ mn` unless `mn ≤ 0` (the default `-l 0`: no lower
+bound), `g ≤ mx` unless `mx = 0`, and the window `cliWindow` (no `--delta` (default −1, or any negative value): the `g` symbols;
+`--delta e`: sites + `e` symbols on each side clipped at the ends of the template — a `--delta` larger than the distance to
+an end gives the whole remainder — or, with `--only-complete-flanking`, only the pairs whose flanks are complete). -/
+theorem cli_linear_spec (P : Primers) (hP : PrimersOk P) (mn mx delta : Int) (full : Bool) (seq : Bytes) (x : Amplicon) :
+    x ∈ pcrL P (cliOpts mn mx delta full false) seq ↔
+      (∃ i ki j kj a b, MatchAt P.forward (enc seq) i ki ∧ MatchAt P.crev (enc seq) j kj ∧
+        (1 ≤ (j : Int) - ((i : Int) + P.forward.patlen) ∧ (mn ≤ 0 ∨ mn ≤ (j : Int) - ((i : Int) + P.forward.patlen)) ∧
+          (mx = 0 ∨ (j : Int) - ((i : Int) + P.forward.patlen) ≤ mx)) ∧
+        cliWindow delta full seq.length i P.forward.patlen j P.crev.patlen = some (a, b) ∧
+        x = mkAmp true seq i ki j kj P.forward.patlen P.crev.patlen a b) ∨
+      (∃ i ki j kj a b, MatchAt P.reverse (enc seq) i ki ∧ MatchAt P.cfwd (enc seq) j kj ∧
+        (1 ≤ (j : Int) - ((i : Int) + P.reverse.patlen) ∧ (mn ≤ 0 ∨ mn ≤ (j : Int) - ((i : Int) + P.reverse.patlen)) ∧
+          (mx = 0 ∨ (j : Int) - ((i : Int) + P.reverse.patlen) ≤ mx)) ∧
+        cliWindow delta full seq.length i P.reverse.patlen j P.cfwd.patlen = some (a, b) ∧
+        x = mkAmp false seq i ki j kj P.reverse.patlen P.cfwd.patlen a b) := by
+  rw [mem_pcrL_iff P hP _ rfl,
+    mem_block_linear true _ _ hP.forward hP.crev _ _ (Int.natCast_nonneg _) _ rfl,
+    mem_block_linear false _ _ hP.reverse hP.cfwd _ _ (Int.natCast_nonneg _) _ rfl]
+  simp only [lengthOk_cli, linBounds_cli, Except.ok.injEq]
+
+/-- `-L` is mandatory on the command line (its built-in default is −1): **a negative maximal length rejects every pair** -/
+theorem cli_negative_max (P : Primers) (hP : PrimersOk P) (mn mx delta : Int) (full : Bool) (hmx : mx < 0) (seq : Bytes) :
+    pcrL P (cliOpts mn mx delta full false) seq = [] := by
+  apply List.eq_nil_iff_forall_not_mem.mpr
+  intro x hx
+  rcases (cli_linear_spec P hP mn mx delta full seq x).mp hx with ⟨i, ki, j, kj, a, b, _, _, ⟨g1, _, g3⟩, _⟩ | ⟨i, ki, j, kj, a, b, _, _, ⟨g1, _, g3⟩, _⟩ <;>
+    omega
+
+/-- **`--delta` larger than the distance to the ends of the template** (no `--only-complete-flanking`): the window is the
+whole template; with `--only-complete-flanking` the pair is not reported -/
+theorem cli_delta_beyond_ends (delta : Int) (L i dl j cl : Nat) (h0 : 0 ≤ delta) (hi : (i : Int) ≤ delta)
+    (hj : (L : Int) ≤ (j : Int) + cl + delta) (hlt : (i : Int) < delta ∨ (L : Int) < (j : Int) + cl + delta) :
+    cliWindow delta false L i dl j cl = some (0, L) ∧ cliWindow delta true L i dl j cl = none := by
+  unfold cliWindow
+  have hd : ¬ delta < 0 := by omega
+  constructor
+  · simp only [hd, if_false, Bool.false_eq_true, Option.some.injEq, Prod.mk.injEq]; omega
+  · simp only [hd, if_false, if_true]; rw [if_neg (by omega)]
+
+/-- **`obipcr` without `--fragmented`, or with `--circular`** (patch `C11-circular-not-fragmented`: `--fragmented` is ignored
+with `--circular`): the template is searched whole, once, with the options of `cliOpts` — so that `cli_linear_spec` (linear)
+and `pcr_sound_circular` / `pcr_complete_circular` / `pcr_rotation_all` (circular) describe the output of the command. -/
+theorem cli_whole (P : Primers) (lf lr : Nat) (mn mx delta : Int) (full circ frag : Bool) (h : frag = false ∨ circ = true)
+    (t : Bytes) :
+    cliRun P lf lr mn mx delta full circ frag t =
+      some ((pcr P (cliOpts mn mx delta full circ) t).map fun l => [((0, t.length), l)]) := by
+  have hp : cliPieces mx lf lr delta circ frag t.length = some none := by
+    unfold cliPieces
+    rcases h with h | h <;> simp [h]
+  unfold cliRun
+  rw [hp]
+  simp only [pcrSlice, List.map_cons, List.map_nil, List.drop_zero, Nat.sub_zero, List.take_length]
+  cases hpc : pcr P (cliOpts mn mx delta full circ) t with
+  | error e => simp [List.mapM_cons, hpc, Except.map, bind, Except.bind]
+  | ok l => simp [List.mapM_cons, List.mapM_nil, hpc, Except.map, bind, Except.bind, pure, Except.pure]
+
+/-- … and with `--fragmented` on a linear template the pieces are those of `IFragments` with the parameters of
+`cliFragParams` (`cli_fragmented` says when their union is the set of amplicons of the template) -/
+theorem cli_pieces_fragmented (mx : Int) (lf lr : Nat) (delta : Int) (len : Nat) :
+    cliPieces mx lf lr delta false true len =
+      fragments (cliFragParams mx lf lr delta).1 (cliFragParams mx lf lr delta).2.1 (cliFragParams mx lf lr delta).2.2 len := rfl
+
+/-- non-vacuity of `cli_linear_spec` / test: `obipcr --forward ACG --reverse GGA -L 5` on `tacgttccaa` with `--delta 3`
+(flanks clipped at both ends: the whole template) and with `--only-complete-flanking` (nothing) -/
+example :
+    (pcrL exPrimers (cliOpts 0 5 3 false false) [116, 97, 99, 103, 116, 116, 99, 99, 97, 97]).map (fun x => (x.idFrom, x.idTo)) = [(1, 10)] ∧
+    pcrL exPrimers (cliOpts 0 5 3 true false) [116, 97, 99, 103, 116, 116, 99, 99, 97, 97] = [] ∧
+    (pcrL exPrimers (cliOpts 0 5 (-1) false false) [116, 97, 99, 103, 116, 116, 99, 99, 97, 97]).map (fun x => (x.idFrom, x.idTo)) = [(5, 5)] ∧
+    pcrL exPrimers (cliOpts 2 5 (-1) false false) [116, 97, 99, 103, 116, 116, 99, 99, 97, 97] = [] ∧
+    cliWindow 3 false 10 1 3 5 3 = some (0, 10) := by decide
+
 /-!
 ## what is left
 
-* the circular theorems hold for primers that fit in the template (`PrimersFit`, e.g. every template of at least 64 symbols);
-  a circular template shorter than a primer is outside the domain of the matcher model (C10 note: the C encoder reads 64
-  symbols whatever the length);
+* `PrimersFit` (no primer longer than the template) remains a hypothesis of `pcr_sound_circular` / `pcr_complete_circular` /
+  `pcr_rotation_mem` / `_perm`; when it fails the result is empty (`pcr_circular_unfit`), and totality, rotation invariance and
+  strand symmetry are stated for every length (`pcr_total_circular_all`, `pcr_rotation_all`, `pcr_strand_symmetry_circular_all`);
 * `PrimersMirror` (the complemented patterns carry the mirrored code lists) is a hypothesis of the general strand-symmetry
-  theorems; it is discharged for every primer pair written in the documented grammar (`pcr_strand_symmetry_grammar`,
-  `pcr_strand_symmetry_circular_grammar`);
+  and match-string theorems; it is discharged for every primer pair written in the documented grammar (`mkPrimers_grammar`,
+  `pcr_strand_symmetry_grammar`, `pcr_strand_symmetry_circular_grammar`);
 * a circular window (sites + flanks) longer than the circle: the code returns it modulo the length
-  (`pcr_circular_window_counterexample`), proposed finding;
-* `obipcr --fragmented --circular` searches every (linear) piece as a circle: modelled as it is (driver op `cli`), shown by the
-  harness oracle (`cli.circular-fragments`), proposed finding; `--fragmented` with clipped flanks: `pcr_piece_clipped`;
+  (`pcr_circular_window_counterexample`), open finding;
+* `obipcr --fragmented` with clipped flanks: open finding, characterised exactly by `pcr_piece_clipped` +
+  `pcr_piece_clipped_exact` (a repair needs the pieces to know which of their ends are ends of the template: a flag set by
+  `IFragments` and read by `_Pcr` — two packages, not proposed as a patch);
+* `obipcr --fragmented --circular`: repaired (patch `C11-circular-not-fragmented`: circular templates are searched whole,
+  `cli_whole`);
+* the annotation map is modelled for integer and string values of the template annotations (`annotate`); that
+  `Subsequence` / `ReverseComplement` rewrite a `pairing_mismatches` annotation and `MustFillMap` then restores the template's
+  value is not modelled (C07 owns these two functions);
 * `pcr_rotation` is stated on sets of observable amplicons and, record by record, with shifted coordinates
   (`pcr_rotation_mem`); the circular theorems are about the model as repaired (patches `C11-reverse-block-circular-length`,
   `C11-circular-overlap-across-origin`, `C11-circular-extension-before-origin`).
